@@ -119,8 +119,9 @@ theorem roundtrip_flat_partial (S : Schema) (c : Nat) (d : MsgD) (hd : S[c]? = s
         have := (hff.rep hok.1).2; rw [hg] at this; simp at this
       | _ => rw [hv] at hok; simp [flatSlotOk] at hok; first | exact hok.2 | (simp [scalarOk] at hok)
     exact selected_emits S f _ b hff (by simp [hg]) hsc hb
-  apply roundtrip_of_steps S c d hd sl ow unk cur hshape hunk ?_ bs hdump hbl
-  intro rec k f v hf hv
+  apply roundtrip_of_steps S c d hd sl ow unk cur (fun _ v v' => v' = v) hshape hunk bs hdump hbl
+  intro k f v hf hv
+  have hR : ∀ (f : FieldD) (v : Val), (fun (_ : FieldD) (v v' : Val) => v' = v) f v v := fun _ _ => rfl
   have hff := hflat f (List.mem_of_getElem? hf)
   have hok := hty k f v hf hv
   have hvD : sl.getD k .ph = v := by simp [List.getD_eq_getElem?_getD, hv]
@@ -145,24 +146,24 @@ theorem roundtrip_flat_partial (S : Schema) (c : Nat) (d : MsgD) (hd : S[c]? = s
           unfold dumpDefault at hb
           simp only [hg, ho, Option.isSome_none, Bool.or_self, Bool.false_eq_true] at hb
           cases hk : f.defKind <;> rw [hk] at hb <;> simp at hb <;> first | exact hb.symm | exact hb
-    exact ⟨[], fun _ h => by simp at h, by simp [joinRaw, hbe], by rw [if_pos hbe]; rfl⟩
+    exact ⟨[], .ph, fun _ h => by simp at h, by simp [joinRaw, hbe], fun h => absurd hbe h, by rw [if_pos hbe]; rfl⟩
   | none =>
     intro st b hb _ _ _ _ _
     rw [dumpSlot] at hb; injection hb with hb
-    exact ⟨[], fun _ h => by simp at h, by simp [joinRaw, ← hb], by rw [if_pos hb.symm]; rfl⟩
+    exact ⟨[], .none, fun _ h => by simp at h, by simp [joinRaw, ← hb], fun h => absurd hb.symm h, by rw [if_pos hb.symm]; rfl⟩
   | list xs =>
     simp [flatSlotOk] at hok
     obtain ⟨_, hg⟩ := hff.rep hok.1
     have hh : hidden f k cur = false := by unfold hidden; rw [hg]
     have hs : selectedInGroup f k cur = false := by unfold selectedInGroup; rw [hg]
     rw [hh]
-    exact slotStep_repeated S rec d k f _ xs hdist hf hff hok.1 (fun x hx => hok.2 x hx) hs
-  | int i => simp [flatSlotOk] at hok; exact slotStep_scalar S rec d k f _ _ _ hdist hf hff hok.1 hok.2
-  | bool b => simp [flatSlotOk] at hok; exact slotStep_scalar S rec d k f _ _ _ hdist hf hff hok.1 hok.2
-  | f32 b => simp [flatSlotOk] at hok; exact slotStep_scalar S rec d k f _ _ _ hdist hf hff hok.1 hok.2
-  | f64 b => simp [flatSlotOk] at hok; exact slotStep_scalar S rec d k f _ _ _ hdist hf hff hok.1 hok.2
-  | str s => simp [flatSlotOk] at hok; exact slotStep_scalar S rec d k f _ _ _ hdist hf hff hok.1 hok.2
-  | byt s => simp [flatSlotOk] at hok; exact slotStep_scalar S rec d k f _ _ _ hdist hf hff hok.1 hok.2
+    exact slotStep_repeated S _ d k f _ xs hdist hf hff hok.1 (fun x hx => hok.2 x hx) hs _ hR
+  | int i => simp [flatSlotOk] at hok; exact slotStep_scalar S _ d k f _ _ _ hdist hf hff hok.1 hok.2 _ hR
+  | bool b => simp [flatSlotOk] at hok; exact slotStep_scalar S _ d k f _ _ _ hdist hf hff hok.1 hok.2 _ hR
+  | f32 b => simp [flatSlotOk] at hok; exact slotStep_scalar S _ d k f _ _ _ hdist hf hff hok.1 hok.2 _ hR
+  | f64 b => simp [flatSlotOk] at hok; exact slotStep_scalar S _ d k f _ _ _ hdist hf hff hok.1 hok.2 _ hR
+  | str s => simp [flatSlotOk] at hok; exact slotStep_scalar S _ d k f _ _ _ hdist hf hff hok.1 hok.2 _ hR
+  | byt s => simp [flatSlotOk] at hok; exact slotStep_scalar S _ d k f _ _ _ hdist hf hff hok.1 hok.2 _ hR
   | ts us => simp [flatSlotOk, scalarOk] at hok
   | dur us => simp [flatSlotOk, scalarOk] at hok
   | dict ks vs => simp [flatSlotOk, scalarOk] at hok
